@@ -186,6 +186,7 @@ public:
     */
     bool try_put_token( task_info& info ) {
         info.is_valid = true;
+        __TBB_VERIF_POINT(vp_pipe_put_token, this, 0);
         spin_mutex::scoped_lock lock( array_mutex );
         Token token;
         if( is_ordered ) {
@@ -225,6 +226,7 @@ public:
             wakee = item;
             item.is_valid = false;
         }
+        __TBB_VERIF_POINT(vp_pipe_wakee, this, wakee.is_valid);
         if( wakee.is_valid )
             spawner.spawn_stage_task(wakee, ed);
     }
@@ -284,6 +286,7 @@ private:
     void try_spawn_stage_task(d1::execution_data& ed) {
         ITT_NOTIFY( sync_releasing, &my_pipeline.input_tokens );
         if( (my_pipeline.input_tokens.fetch_sub(1, std::memory_order_release)) > 1 ) {
+            __TBB_VERIF_POINT(vp_pipe_input_token, &my_pipeline, 0);
             d1::small_object_allocator alloc{};
             r1::spawn( *alloc.new_object<stage_task>(ed, my_pipeline, alloc ), my_pipeline.my_context );
         }
@@ -402,6 +405,7 @@ bool stage_task::execute_filter(d1::execution_data& ed) {
         // Reached end of the pipe.
         __TBB_VERIF_POINT(vp_pipe_token_release, &my_pipeline, 0);
         std::size_t ntokens_avail = my_pipeline.input_tokens.fetch_add(1, std::memory_order_acquire);
+        __TBB_VERIF_POINT(vp_pipe_recycle, &my_pipeline, ntokens_avail);
 
         if( ntokens_avail>0  // Only recycle if there is one available token
                 || my_pipeline.end_of_input.load(std::memory_order_relaxed) ) {
